@@ -25,7 +25,8 @@ Statements:
   ["fget", f] ["fset", f, v] FlowVar f
   ["call", R, n]      drive inner (not played) routine R with next() n times
   ["pause", rid, d]   (C10) pause routine rid now and resume it d later ...
-  ["yinf"]            yield inf: the routine is never scheduled again
+  ["yinf"] ["yend", v] yield inf / a non-delta value: never scheduled again
+  ["nextbar"]         log clock.next_bar() (routine on a tempo clock)
   ["reenter"]         the routine calls next() on itself (must be refused) and goes on
   ["replay", rid]     reset() + play() of routine rid if it has ended (once)
   ["resched", rid, d] clock.sched(d, routine rid) while it is pending after a
@@ -210,7 +211,10 @@ class Gen:
             else:
                 body.append(['y', self.delta()])
         if 'yinf' in self.features and rng.random() < 0.12:
-            body.append(['yinf'])      # yields inf: never scheduled again
+            # yields inf / a value that is not a delta (a bool is not a number
+            # for the clocks): never scheduled again
+            body.append(rng.choice([['yinf'], ['yinf'], ['yend', True], ['yend', False],
+                                    ['yend', 'x']]))
         R['body'] = body
         return R
 
@@ -430,7 +434,11 @@ class Run:
         """Starts routine R as a child at the current logical time."""
         clock = self.clock(R['clock'])
         st = {'rid': R['id'], 'clock': clock, 'ci': R['clock'], 'k': 0}
-        if R['clock'] >= 0:
+        if R['clock'] >= 0 and R.get('quant'):
+            # started on the clock's grid (the grid itself is C12's subject)
+            st['exp_beats'] = clock.next_time_on_grid(R['quant'])
+            st['exp_secs'] = None
+        elif R['clock'] >= 0:
             st['exp_beats'] = clock.beats       # == what play(quant=0) will schedule at
             st['exp_secs'] = None
         else:
@@ -442,7 +450,10 @@ class Run:
         self.live += 1
         body = self.make_body(R, st)
         form = R['id'] % 6
-        if R['clock'] >= 0:
+        if R['clock'] >= 0 and R.get('quant'):
+            rout = self.stm.Routine(body)
+            rout.play(clock, R['quant'])
+        elif R['clock'] >= 0:
             q = [0, self.clk.Quant(0), (0, 0)][(R['id'] // 6) % 3]
             if form in (0, 1):
                 rout = self.stm.Routine(body)
@@ -638,14 +649,18 @@ class Run:
                     except Exception as e:
                         out = type(e).__name__
                 self.log.append((op, st['rid'], s[1], out, self.now_secs() - self.T0))
-            elif op == 'yinf':
-                # inf is "never": the routine leaves its clock for good
+            elif op in ('yinf', 'yend'):
+                # inf is "never", a bool or a string is not a delta: the routine
+                # leaves its clock for good
                 self.log.append(('yinf', st['rid'], self.now_secs() - self.T0))
                 st['gone'] = True
                 self._dec()
-                yield float('inf')
+                yield (float('inf') if op == 'yinf' else s[1])
                 self.log.append(('resumed-after-inf', st['rid']))
                 self.fail('resumed-after-yielding-inf', rid=st['rid'], after='yinf')
+            elif op == 'nextbar':
+                c = st['clock']
+                self.log.append(('nextbar', st['rid'], c.next_bar(), c.beats))
             elif op == 'reenter':
                 me = st['rout']         # the routine that is running this body
                 out = 'no-exception'
